@@ -9,12 +9,13 @@ os.environ.setdefault('PYTHONHASHSEED', '0')
 
 NOT_CLAIMED = {}   # property -> reason, for properties deliberately not claimed
 
+REGISTERED = set(open(os.path.join(VERIF, 'registered.txt')).read().split())
 props = [json.loads(l) for l in open(os.path.join(VERIF, 'properties.jsonl'))]
 checks, na = [], []
 for p in props:
     pid = p['id']
     modpath = os.path.join(VERIF, 'checks', pid.lower() + '.py')
-    if pid in NOT_CLAIMED or not os.path.exists(modpath):
+    if pid in NOT_CLAIMED or pid not in REGISTERED or not os.path.exists(modpath):
         na.append({'property_id': pid, 'reason': NOT_CLAIMED.get(pid, 'check not built yet (see DESIGN.md section 2 for the planned design)')})
         continue
     m = importlib.import_module('checks.' + pid.lower())
